@@ -35,13 +35,13 @@ type failure struct {
 }
 
 type stat struct {
-	Evaluations        int            `json:"evaluations"`
-	DistinctNontrivial int            `json:"distinct_nontrivial"`
-	Rule               string         `json:"rule"`
-	Samples            []string       `json:"samples"`
-	Distribution       map[string]int `json:"distribution"`
+	Evaluations        int             `json:"evaluations"`
+	DistinctNontrivial int             `json:"distinct_nontrivial"`
+	Rule               string          `json:"rule"`
+	Samples            []string        `json:"samples"`
+	Distribution       map[string]int  `json:"distribution"`
 	Exhaustive         map[string]bool `json:"exhaustive_domains"`
-	FailuresTotal      int            `json:"failures_total"`
+	FailuresTotal      int             `json:"failures_total"`
 }
 
 var (
@@ -197,6 +197,49 @@ func (f *failingReader) Read(p []byte) (int, error) {
 
 var errInjected = errors.New("injected read failure")
 
+// shapedReader delivers data in one of the ways the io.Reader contract allows: 0 everything at once, 1 one byte per
+// call, 2 everything at once TOGETHER with io.EOF (iotest.DataErrReader; sockets and HTTP bodies do this), 3 one byte
+// per call and the last byte together with io.EOF, 4 an empty read (0, nil) before every byte.
+type shapedReader struct {
+	data  []byte
+	pos   int
+	mode  int
+	empty bool
+}
+
+func (s *shapedReader) Read(p []byte) (int, error) {
+	if len(p) == 0 {
+		return 0, nil
+	}
+	if s.pos >= len(s.data) {
+		return 0, io.EOF
+	}
+	if s.mode == 4 {
+		if s.empty = !s.empty; s.empty {
+			return 0, nil
+		}
+	}
+	n := len(p)
+	if s.mode == 1 || s.mode == 3 || s.mode == 4 {
+		n = 1
+	}
+	n = copy(p[:n], s.data[s.pos:])
+	s.pos += n
+	if (s.mode == 2 || s.mode == 3) && s.pos == len(s.data) {
+		return n, io.EOF
+	}
+	return n, nil
+}
+
+var shapeNames = []string{"all-at-once", "one-byte", "data+EOF", "one-byte, last with EOF", "empty reads between bytes"}
+
+// shaped: the stream readers must return the same value, with Err == nil, however a complete value is delivered.
+func shaped(data []byte, each func(shape string, er *iohelp.ErrorReader)) {
+	for m := range shapeNames {
+		each(shapeNames[m], iohelp.NewErrorReader(&shapedReader{data: data, mode: m}))
+	}
+}
+
 func main() {
 	seed := flag.Int64("seed", 1, "")
 	tier := flag.String("tier", "quick", "")
@@ -277,6 +320,13 @@ func main() {
 			gs := p.readS(er)
 			if er.Err != nil || gs != x {
 				fail("oracle", fmt.Sprintf("Read%s(%s)", p.name, hexOf(enc)), fmt.Sprintf("%#x", x), fmt.Sprintf("%#x err=%v", gs, er.Err), "", "stream round trip")
+			}
+			if vi%17 == 0 {
+				shaped(enc, func(shape string, er *iohelp.ErrorReader) {
+					if gs := p.readS(er); er.Err != nil || gs != x {
+						fail("oracle", fmt.Sprintf("Read%s(%s) from a reader delivering %s", p.name, hexOf(enc), shape), fmt.Sprintf("%#x", x), fmt.Sprintf("%#x err=%v", gs, er.Err), "", "stream round trip depends on how the reader delivers the bytes")
+					}
+				})
 			}
 			// model agreement (sampled when the domain is large)
 			if vi%modelEvery == 0 {
@@ -374,6 +424,11 @@ func main() {
 		if back := iohelp.ReadGUID(iohelp.NewErrorReader(bytes.NewReader(buf))); back != g {
 			fail("oracle", "ReadGUID(WriteGUID(g))", hexOf(g[:]), hexOf(back[:]), "", "GUID stream round trip")
 		}
+		shaped(buf, func(shape string, er *iohelp.ErrorReader) {
+			if back := iohelp.ReadGUID(er); er.Err != nil || back != g {
+				fail("oracle", "ReadGUID from a reader delivering "+shape, hexOf(g[:]), fmt.Sprintf("%s err=%v", hexOf(back[:]), er.Err), "", "GUID stream round trip depends on how the reader delivers the bytes")
+			}
+		})
 		if k < 200 {
 			if m := ask("enc st 1 guid " + hexOf(g[:])); m != "ok "+hexOf(buf)+" 16" {
 				fail("mismatch", "enc guid "+hexOf(g[:]), m, "ok "+hexOf(buf), m, "model GUID wire order")
@@ -417,6 +472,11 @@ func main() {
 		if !tm.Equal(ts) || tm.IsZero() != ts.IsZero() {
 			fail("oracle", fmt.Sprintf("ReadDate vs ReadDateBytes ticks=%d", t), tm.String(), ts.String(), "", "stream and slice date readers differ")
 		}
+		shaped(buf, func(shape string, er *iohelp.ErrorReader) {
+			if ts := iohelp.ReadDate(er); er.Err != nil || !tm.Equal(ts) {
+				fail("oracle", fmt.Sprintf("ReadDate ticks=%d from a reader delivering %s", t, shape), tm.String(), fmt.Sprintf("%s err=%v", ts, er.Err), "", "date stream read depends on how the reader delivers the bytes")
+			}
+		})
 		if (t == 0) != tm.IsZero() && t*100 != 0 {
 			fail("oracle", fmt.Sprintf("ReadDateBytes ticks=%d", t), "zero time iff tick 0", tm.String(), "", "zero time correspondence")
 		}
@@ -487,6 +547,12 @@ func main() {
 		full := make([]byte, 4+n)
 		iohelp.WriteUint32Bytes(full, uint32(n))
 		copy(full[4:], body)
+		shaped(full, func(shape string, er *iohelp.ErrorReader) {
+			count("string-shape", fmt.Sprintf("%d/%s", n, shape))
+			if got := iohelp.ReadString(er); er.Err != nil || got != string(body) {
+				fail("oracle", fmt.Sprintf("ReadString of %d bytes from a reader delivering %s", n, shape), fmt.Sprintf("%q", abbrevS(string(body))), fmt.Sprintf("%q err=%v", abbrevS(got), er.Err), "", "string stream read depends on how the reader delivers the bytes")
+			}
+		})
 		for l := 0; l <= 4+n+2; l++ {
 			if n > 300 && l > 8 && l < 4+n-3 {
 				continue
@@ -552,4 +618,11 @@ func main() {
 		}
 	}
 	fmt.Printf("C20: evaluations=%d distinct=%d failures=%d\n", st.Evaluations, st.DistinctNontrivial, st.FailuresTotal)
+}
+
+func abbrevS(s string) string {
+	if len(s) > 40 {
+		return s[:40] + "..."
+	}
+	return s
 }
